@@ -1,5 +1,6 @@
 import Nstd.Hash.LemmasStep
 import Nstd.Hash.PtrStep
+import Nstd.Hash.LemmasString
 /-
   Property C02: HashMap / HashSet / PoolMap behave as insertion-ordered unique-key tables.
 
@@ -199,6 +200,23 @@ theorem hash_string_total (s : List Nat) (len : Nat) (hs : s.length = len + 1) :
   simp only [hashString, List.getElem?_eq_getElem h0, List.getElem?_eq_getElem h1, List.getElem?_eq_getElem h2]
   rfl
 
+/-- `hash_string_in_bounds` over the String VIEW actually read: whatever memory the string points into (its own block, a
+    literal, the middle of a larger text whose neighbouring bytes are arbitrary), as long as the byte after the text is
+    readable (the contract of `attach`), the pointer obtained by `const char* s = str;` designates the string's OWN text
+    followed by the NUL the conversion guarantees, and the three bytes the hash reads are bytes `0 … len` of that -/
+theorem hash_string_reads_own_text (v : StrView) (hv : v.off + v.len < v.buf.length) :
+    ∃ s, v.conv = some s ∧ ∀ i ∈ hashStringReads v.len, i ≤ v.len ∧ s[i]? = (v.text ++ [0])[i]? := by
+  obtain ⟨s, hs, hrd⟩ := v.conv_spec hv
+  exact ⟨s, hs, fun i hi => ⟨hashReads_le v.len i hi, hrd i (hashReads_le v.len i hi)⟩⟩
+
+/-- equal strings (`operator==`: same length, same bytes) have equal hash codes, independent of where the two strings
+    point to and of what follows them: owned, literal, shared, attached view, empty view inside a text -/
+theorem hash_respects_equality (v w : StrView) (hv : v.off + v.len < v.buf.length) (hw : w.off + w.len < w.buf.length)
+    (he : v.text = w.text) : hashView v = hashView w ∧ (hashView v).isSome = true := by
+  rw [hashView_eq v hv, hashView_eq w hw, he]
+  refine ⟨rfl, ?_⟩
+  exact hash_string_total _ _ (by simp)
+
 /-! ### pointer level -/
 
 open Ptr in
@@ -396,6 +414,15 @@ example : ∃ (pt : Ptr.PTable) (t : Table), Ptr.Rel pt t ∧ t.Inv (fun _ => 7)
     (Ptr.fresh_rel false 1).insert (fresh_inv (fun _ => 7) 1 (by decide)) Kind.map 0 5 50 (Nat.zero_le _)
   exact ⟨r.1, _, hr, ((fresh_inv (fun _ => 7) 1 (by decide)).insert Kind.map 0 5 50 (Nat.zero_le _)).1,
     by decide, by decide⟩
+
+/-- the empty string as an owned string and as an empty view in the middle of "ab": both are well-formed views with equal
+    text, their hash codes agree (0); reading `data->str[0]` directly would give 'b' for the second -/
+example :
+    let v : StrView := ⟨[0], 0, 0⟩
+    let w : StrView := ⟨[97, 98, 99], 1, 0⟩
+    v.off + v.len < v.buf.length ∧ w.off + w.len < w.buf.length ∧ v.text = w.text ∧
+      hashView v = some 0 ∧ hashView w = some 0 ∧ w.buf[w.off]? = some 98 := by
+  decide
 
 example : hashStringReads 0 = [0, 0, 0] ∧ hashStringReads 5 = [0, 2, 4] := by decide
 
